@@ -93,7 +93,7 @@ def split_blocks(text):
 def run_job(j, idx, harness, syms, worker, env, scratch, timeout):
     pol = os.path.join(scratch, "j%d.pol" % idx); outp = os.path.join(scratch, "j%d.out" % idx)
     with open(pol, "w") as f: f.write(j["case"]["text"])
-    cmd = [harness, pol] + j["opts"] + ["-j", str(j["threads"]), "--syms", syms] + j["sched"] + ["--timeout", "60"]
+    cmd = [harness, pol] + j["opts"] + ["-j", str(j["threads"]), "--syms", syms] + j["sched"] + ["--timeout", str(j.get("run_timeout", 20))]
     t0 = time.time()
     with open(outp, "w") as fo:
         import subprocess
@@ -146,7 +146,7 @@ def run(ctx):
     syms = harness + ".syms"
     rc, _, e = vf.sh("nm -S -n --defined-only %s > %s" % (harness, syms))
     if rc != 0: raise vf.InfraError("nm failed: %s" % e)
-    env = ctx.san_env()
+    env = ctx.san_env({"UBSAN_OPTIONS": "print_stacktrace=0:halt_on_error=1:exitcode=98"})
     # the extracted model
     wbin = os.path.join(vf.BINDIR, "worker")
     rc, o, e = vf.sh("cd %s/coq && timeout 900 make -s Extract/Extract_worker.vo >/dev/null 2>&1; cd ../ocaml && "
@@ -168,7 +168,7 @@ def run(ctx):
     os.makedirs(os.path.join(ctx.scratch, "jobs"), exist_ok=True)
     with cf.ThreadPoolExecutor(max_workers=int(os.environ.get("VERIF_JOBS", "16"))) as ex:
         jobs = list(ex.map(lambda ij: run_job(ij[1], ij[0], harness, syms, worker, env, os.path.join(ctx.scratch, "jobs"),
-                                              ctx.pick(200, 2000)), list(enumerate(jobs))))
+                                              ctx.pick(230, 2000)), list(enumerate(jobs))))
     ctx.log("exploration done: %d runs" % sum(len(j["runs"]) for j in jobs))
 
     stats = collections.Counter(); samples = []; edges = set(); same = set(); lock_hist = collections.Counter()
@@ -216,9 +216,15 @@ def run(ctx):
                     ctx.violation(SIG_XUNLOCK, "mps_mcluster locks block_mutexes[j] in the calling thread and _mps_mcluster_worker unlocks it from a pool thread "
                                   "(a default pthread mutex used as a binary semaphore: undefined by POSIX); seen on %s %s with %d threads" % (c["name"], cfgs, j["threads"]),
                                   rep_of(j, r))
+            if (st == 5 and "exit-98" in what) or (st == 6 and "runtime error:" in j["err"] and "AddressSanitizer" not in j["err"]):
+                # (status 6: the process sometimes hangs in exit() after the UBSan report and is killed by the run's alarm)
+                # UBSan (arithmetic undefined behaviour, e.g. the exponent difference in rdpe_add): schedule independent,
+                # judged by C12 / C03, not a predicate of this property; the run has no result to judge
+                stats["ubsan-report(not judged here: C12/C03)"] += 1
+                continue
             if st != 0:
                 kind = STATUS_NAME.get(st, "status%d" % st)
-                asan = (st == 5 and ("exit-97" in what or "exit-98" in what)) or "AddressSanitizer" in j["err"]
+                asan = (st == 5 and "exit-97" in what) or "AddressSanitizer" in j["err"]
                 if asan: kind = "sanitizer"
                 stats["VIOLATION:" + kind] += 1
                 m = re.search(r"(ERROR: AddressSanitizer: [^\n]*|runtime error: [^\n]*)", j["err"])
